@@ -11,7 +11,7 @@ import random
 from streamflow.core import utils as sfutils
 from streamflow.core.config import BindingConfig
 from streamflow.core.deployment import DeploymentConfig, FilterConfig, LocalTarget, Target
-from streamflow.core.workflow import Job, Port, Token, Workflow
+from streamflow.core.workflow import Job, Port, Status, Token, Workflow
 from streamflow.cwl import step as cwl_step
 from streamflow.cwl import transformer as cwl_tr
 from streamflow.cwl.combinator import ListMergeCombinator
@@ -159,6 +159,48 @@ def mutate(o, seen=None, depth=0):
     return n
 
 
+def foreign_ports(w):
+    """Port objects reachable from the steps of a loaded workflow that are NOT the workflow's own port of that name: a step attribute
+    such as `job_port` must be the very object `workflow.ports[name]` holds (tokens are put on that one)"""
+    out, seen = [], set()
+
+    def walk(o, where, depth):
+        if o is None or isinstance(o, (bool, int, float, str, enum.Enum, type, asyncio.Event, asyncio.Lock, asyncio.Condition, Workflow)):
+            return
+        if id(o) in seen or depth > 8:
+            return
+        seen.add(id(o))
+        if isinstance(o, Port):
+            if w.ports.get(o.name) is not o:
+                out.append(f"{where}: a {type(o).__name__} named {o.name!r} that is not workflow.ports[{o.name!r}]")
+            return
+        if isinstance(o, (list, tuple, set, frozenset)):
+            for x in o:
+                walk(x, where, depth + 1)
+            return
+        if isinstance(o, dict):
+            for k, x in o.items():
+                walk(x, f"{where}[{k!r}]", depth + 1)
+            return
+        if type(o).__module__.split(".")[0] != "streamflow":
+            return
+        names = set(getattr(o, "__dict__", {}).keys())
+        for klass in type(o).__mro__:
+            sl = getattr(klass, "__slots__", ())
+            names.update(sl if isinstance(sl, (tuple, list)) else ())
+        for name in sorted(names):
+            if name in ("context", "workflow"):
+                continue
+            try:
+                walk(getattr(o, name), f"{where}.{name}", depth + 1)
+            except AttributeError:
+                continue
+
+    for n, st in w.steps.items():
+        walk(st, f"steps[{n!r}]", 0)
+    return out
+
+
 # ------------------------------------------------------------------------------------------------
 # random workflows
 # ------------------------------------------------------------------------------------------------
@@ -295,6 +337,10 @@ def build_workflow(rng, context):
             wire(wf.create_step(cls=rng.choice([cwl_step.CWLLoopOutputAllStep, cwl_step.CWLLoopOutputLastStep]), name=name + "-loop-out"), 1, 1)
     for p in rng.sample(ports, min(len(ports), rng.randint(0, 2))):
         wf.output_ports[rs(rng)] = p.name
+    # steps are saved in whatever state they are in
+    for st in wf.steps.values():
+        if rng.random() < 0.6:
+            st.status = rng.choice(list(Status))
     # the CWL translator also fills `Workflow.input_ports` (`workflow.input_ports[port_name] = input_port.name`)
     for p in rng.sample(ports, min(len(ports), rng.randint(0, 2))):
         wf.input_ports[rs(rng)] = p.name
@@ -499,6 +545,10 @@ async def _one_case(seed, context):
     D(w1)
     if INT_FLAGS:
         res["diffs"].append(("load#1", "deployment-flags", f"DeploymentConfig {INT_FLAGS[0]} was saved as a bool and is loaded as an int (0/1)"))
+    for label, w in (("load#1", w1), ("load#2", w2)):
+        fp = foreign_ports(w)
+        if fp:
+            res["diffs"].append((label, "port-identity", fp[0]))
     for label, w, ts in (("load#1", w1, t1), ("load#2", w2, t2)):
         if D(w) != original:
             res["diffs"].append((label, "workflow", first_diff(original, D(w))))
@@ -525,10 +575,18 @@ async def _one_case(seed, context):
     wb = WorkflowBuilder(db, deep_copy=True)
     w4 = await wb.load_workflow(wf.persistent_id)
     d4 = D(w4)
-    want = json.loads(json.dumps(original))
+    def initial(d):
+        # the builder restores the initial state of every step it copies (`step.status = Status.WAITING`)
+        d = json.loads(json.dumps(d))
+        for st in d.get("steps", {}).values():
+            if isinstance(st, dict) and "status" in st:
+                st["status"] = 0
+        return d
+
+    want = initial(original)
     want["name"] = d4.get("name")              # the copy gets a fresh name
-    if strip_wf(d4, w4.name) != strip_wf(want, w4.name) and strip_wf(d4, w4.name) != strip_wf(json.loads(json.dumps(original)), wf.name):
-        res["diffs"].append(("WorkflowBuilder(deep_copy=True)", "workflow", first_diff(strip_wf(json.loads(json.dumps(original)), wf.name), strip_wf(d4, w4.name))))
+    if strip_wf(d4, w4.name) != strip_wf(want, w4.name) and strip_wf(d4, w4.name) != strip_wf(initial(original), wf.name):
+        res["diffs"].append(("WorkflowBuilder(deep_copy=True)", "workflow", first_diff(strip_wf(initial(original), wf.name), strip_wf(d4, w4.name))))
     if w4.persistent_id is not None or any(s.persistent_id is not None for s in w4.steps.values()) or any(
             p.persistent_id is not None for p in w4.ports.values()):
         res["diffs"].append(("WorkflowBuilder(deep_copy=True)", "persistent_id", "a copied entity kept a persistent id"))
